@@ -38,7 +38,10 @@ func (cp *CachedPlanner) WithPlannerExecutor(e Planner) *CachedPlanner {
 }
 
 func (cp *CachedPlanner) hash(ctx *PlanningContext) hashKey {
-	s := format.NewBufferedFormatter().FormatSelectionSet(ctx.Operation.SelectionSet)
+	// the plan depends on the operation type and name as well as on the selection set
+	// (both end up in the sub-requests of the root steps)
+	s := string(ctx.Operation.Operation) + " " + ctx.Operation.Name + " " +
+		format.NewBufferedFormatter().FormatSelectionSet(ctx.Operation.SelectionSet)
 	sha1 := sha1.Sum([]byte(s))
 	return sha1
 }
